@@ -35,14 +35,19 @@ def generate(st):
         'jitter': sw.random() < 0.6,
         'faulty': sw.random() < 0.4,
         'fault_kinds': sorted(sw.sample(FAULTS, sw.randint(1, len(FAULTS)))),
-        'rounds': 2 if sw.random() < 0.3 else 1,      # the caller refills the SAME container objects and waits again
+        'rounds': 2 if sw.random() < 0.3 else 1,
+        'falsy_results': sw.random() < 0.3,
+        'shared_containers': sw.random() < 0.3,      # the caller refills the SAME container objects and waits again
     }
     leaves = []
+    made = []
 
     def new_leaf(depth_left):
         i = len(leaves)
         kind = g.choice(cfg['kinds'])
         leaf = {'kind': kind, 'delay': g.choice(cfg['delays'])}
+        if cfg.get('falsy_results') and g.random() < 0.4:
+            leaf['res'] = g.choice(sorted(RES))
         leaves.append(leaf)
         if kind == 'shared':
             cands = [j for j in range(i) if leaves[j]['kind'] in ('future', 'done', 'task')]
@@ -67,10 +72,15 @@ def generate(st):
             if can_leaf and g.random() < 0.7:
                 return new_leaf(depth_left)
             return {'t': 'plain', 'v': g.choice(PLAIN)}
+        okrefs = [m_['id'] for m_ in made if m_['ok']]
+        if cfg.get('shared_containers') and okrefs and g.random() < 0.25 and not top:
+            return {'t': 'same', 'ref': g.choice(okrefs)}       # the very same container object once more
         c = g.choice(cfg['containers'])
         n = g.choice([0, 1, 2, 2, 3, 3, 4])
         items = [build(depth_left - 1, False) for _ in range(n)]
-        node = {'t': c, 'items': items}
+        node = {'t': c, 'items': items, 'id': len(made)}
+        # a container may appear twice only if everything in it can be awaited twice (coroutine objects cannot)
+        made.append({'id': node['id'], 'ok': _multi_ok(node, leaves)})
         if c not in ('list', 'tuple'):
             pool = ['a', 'b', 'c', 'd', 'e', 'k1', 'k2']
             if c in ('dict', 'OrderedDict'):
@@ -127,6 +137,13 @@ class SimValueError(ValueError, SimLeafError):
     pass
 
 
+RES = {'none': None, 'zero': 0, 'empty': '', 'list': [], 'false': False}
+
+
+def _copy_res(v):
+    return list(v) if isinstance(v, list) else v
+
+
 LEAF_EXC = {'sim': SimLeafError, 'type': SimTypeError, 'key': SimKeyError, 'value': SimValueError}
 
 
@@ -146,7 +163,34 @@ def _ctor(name):
             'dictattr': pyg_base.dictattr, 'OrderedDict': collections.OrderedDict}[name]
 
 
+def _multi_ok(node, leaves):
+    t = node['t']
+    if t in ('plain', 'same'):
+        return True
+    if t == 'leaf':
+        lf = leaves[node['i']]
+        return lf['kind'] in ('future', 'task', 'done', 'custom') or (lf['kind'] == 'shared' and lf.get('of') is not None)
+    return all(_multi_ok(x, leaves) for x in node['items'])
+
+
+def _index_nodes(node, leaves, out):
+    if node['t'] in ('plain', 'same'):
+        return out
+    if node['t'] == 'leaf':
+        sub = leaves[node['i']].get('sub') if node['i'] < len(leaves) else None
+        if sub is not None:
+            _index_nodes(sub, leaves, out)
+        return out
+    if 'id' in node:
+        out[node['id']] = node
+    for it in node['items']:
+        _index_nodes(it, leaves, out)
+    return out
+
+
 def _leaf_ids(node, leaves, out):
+    if node['t'] == 'same':
+        return out
     if node['t'] == 'leaf':
         out.append(node['i'])
         sub = leaves[node['i']].get('sub') if node['i'] < len(leaves) else None
@@ -166,6 +210,10 @@ def execute(trace, ctx=None):
     tape = Tape(trace.get('tape', []))
     loop = VirtualLoop(tape, step_cap=10000, jitter=bool(trace['cfg'].get('jitter', True)))
     used = _leaf_ids(structure, leaves, [])
+    nodes_by_id = _index_nodes(structure, leaves, {})
+    # a container may be handed over twice only if all it holds can be awaited twice (a shrunk trace may break that)
+    ok_ids = {k_: _multi_ok(n_, leaves) for k_, n_ in nodes_by_id.items()}
+    by_id = {}
     faults = [f for f in trace.get('faults', []) if f['kind'] == 'outer_cancel' or f.get('leaf') in used]
     raise_on = {f['leaf'] for f in faults if f['kind'] == 'leaf_raise'}
     exc_of = {f['leaf']: LEAF_EXC.get(f.get('exc', 'sim'), SimLeafError) for f in faults if f['kind'] == 'leaf_raise'}
@@ -192,6 +240,10 @@ def execute(trace, ctx=None):
     node_obj = {}
 
     def result_of(i):
+        # an awaitable may perfectly well result in None, 0, '' or an empty list
+        kind_ = leaves[i].get('res') if i < len(leaves) else None
+        if kind_ in RES:
+            return _copy_res(RES[kind_])
         return ['r', i] if gen['n'] == 1 else ['r', i, gen['n']]
 
     def ev(i):
@@ -322,6 +374,12 @@ def execute(trace, ctx=None):
         t = node['t']
         if t == 'plain':
             return node['v']
+        if t == 'same':
+            if not ok_ids.get(node['ref']):
+                return None
+            if node['ref'] in by_id:
+                res.probe('same-container-twice')
+            return by_id.get(node['ref'])
         if t == 'leaf':
             return make_leaf(node['i'])
         items = [build(x) for x in node['items']]
@@ -332,6 +390,8 @@ def execute(trace, ctx=None):
         if t != 'tuple' and recording['on']:
             containers.append((o, node))
             node_obj[id(node)] = o
+        if 'id' in node:
+            by_id[node['id']] = o
         return o
 
     recording = {'on': True}
@@ -341,11 +401,16 @@ def execute(trace, ctx=None):
         t = node['t']
         if t == 'plain':
             return node['v']
+        if t == 'same':
+            return by_id.get(node['ref']) if ok_ids.get(node['ref']) else None
         if t == 'leaf':
             return make_leaf(node['i'])
         items = [refill(x) for x in node['items']]
         if t == 'tuple':
-            return tuple(items)
+            o = tuple(items)
+            if 'id' in node:
+                by_id[node['id']] = o
+            return o
         o = node_obj[id(node)]
         if t == 'list':
             o[:] = items
@@ -358,6 +423,8 @@ def execute(trace, ctx=None):
         t = node['t']
         if t == 'plain':
             return node['v']
+        if t == 'same':
+            return expected(nodes_by_id[node['ref']]) if node['ref'] in nodes_by_id and node['ref'] in by_id and ok_ids.get(node['ref']) else None
         if t == 'leaf':
             i = node['i']
             leaf = leaves[i]
@@ -504,6 +571,8 @@ def _same(a, b, skip=None, structure=None, leaves=None):
 
 def _same_skip(val, node, leaves, skip):
     t = node['t']
+    if t == 'same':
+        return True          # compared at its first occurrence
     if t == 'plain':
         return type(val) is type(node['v']) and val == node['v']
     if t == 'leaf':
@@ -513,9 +582,12 @@ def _same_skip(val, node, leaves, skip):
         leaf = leaves[i]
         if leaf['kind'] == 'nested' and leaf.get('sub') is not None:
             return _same_skip(val, leaf['sub'], leaves, skip)
+        def res_(j):
+            k_ = leaves[j].get('res')
+            return RES[k_] if k_ in RES else ['r', j]
         if leaf['kind'] == 'shared' and leaf.get('of') is not None:
-            return val == ['r', leaf['of']] or val == ['r', i]
-        return val == ['r', i]
+            return _same(val, res_(leaf['of'])) or _same(val, res_(i))
+        return _same(val, res_(i))
     if type(val) is not _ctor(t):
         return False
     if len(val) != len(node['items']):
@@ -531,6 +603,8 @@ def _shape(node, leaves):
     t = node['t']
     if t == 'plain':
         return '.'
+    if t == 'same':
+        return '='
     if t == 'leaf':
         leaf = leaves[node['i']]
         if leaf['kind'] == 'nested' and leaf.get('sub') is not None:
@@ -541,7 +615,7 @@ def _shape(node, leaves):
 
 def _depth(node, leaves):
     t = node['t']
-    if t == 'plain':
+    if t in ('plain', 'same'):
         return 0
     if t == 'leaf':
         leaf = leaves[node['i']]
@@ -558,7 +632,7 @@ def _rank(perm):
 
 def _dict_out_of_order(node, leaves, finished):
     t = node['t']
-    if t in ('plain',):
+    if t in ('plain', 'same'):
         return False
     if t == 'leaf':
         leaf = leaves[node['i']]
@@ -594,7 +668,7 @@ def shrink_candidates(trace):
 
     def walk(node, path):
         paths.append(path)
-        if node['t'] not in ('plain', 'leaf'):
+        if node['t'] not in ('plain', 'leaf', 'same'):
             for k, it in enumerate(node['items']):
                 walk(it, path + [k])
     walk(trace['structure'], [])
@@ -613,8 +687,8 @@ def shrink_candidates(trace):
 
     for p in paths:
         node = get(trace['structure'], p)
-        if node['t'] in ('plain', 'leaf'):
-            if node['t'] == 'leaf' and p:
+        if node['t'] in ('plain', 'leaf', 'same'):
+            if node['t'] in ('leaf', 'same') and p:
                 t = copy.deepcopy(trace)
                 t['structure'] = put(t['structure'], p, {'t': 'plain', 'v': 0}); yield t
             continue
@@ -646,7 +720,7 @@ def size(trace):
 
     def walk(node):
         n[0] += 1
-        if node['t'] not in ('plain', 'leaf'):
+        if node['t'] not in ('plain', 'leaf', 'same'):
             for it in node['items']:
                 walk(it)
         elif node['t'] == 'leaf':
@@ -674,7 +748,7 @@ RULE = ('one case = one (structure, leaf kinds, delays, fault list, scheduler ta
         'non-trivial = at least 2 awaitable leaves and, in a fault configuration, at least one fault that actually fired; '
         'distinct = distinct digest of (trace, observed completion order, result)')
 PROBES = ['later-listed-completes-first', 'tie-broken-by-scheduler', 'timer-fired-late', 'dict-values-complete-out-of-key-order',
-          'nested-depth>=3', 'same-awaitable-twice', 'leaf-depends-on-other-leaf', 'second-round-on-same-containers']
+          'nested-depth>=3', 'same-awaitable-twice', 'leaf-depends-on-other-leaf', 'second-round-on-same-containers', 'same-container-twice']
 TIERS = {'quick': {'runs': 40000, 'wallcap': 45}, 'thorough': {'runs': 1500000, 'wallcap': 780}}
 ASSUMPTIONS = ['only legal asyncio schedules are generated: FIFO call_soon, timers never early, seeded lateness and tie order',
                'only the waiter clause of C19 is decided here; the lifting/zipper/as_list clauses are pure and not covered']
